@@ -812,6 +812,11 @@ def kw_rare(draw, m):
                                                                   draw(st.sampled_from(["1*", "0.2"]))),
                      "WINJCLN\n '%s' %s /\n/\n" % (w, draw(st.sampled_from(["0.5", "1*", "0"]))),
                      "WINJCLN\n '%s' 0.25 %d %d %d /\n/\n" % (w, c[0], c[1], c[2])]
+            if len(W["conns"]) > 1:
+                # injection multipliers connection by connection (modes CREV / CIRR), after the control they multiply
+                md = draw(st.sampled_from(["CREV", "CIRR"]))
+                opts += ["WCONINJE\n '%s' '%s' 'OPEN' 'RATE' 100 1* 400 /\n/\nWINJMULT\n%s/\n" % (
+                    w, W["injtype"], "".join(" '%s' 5000 1.5 '%s' %d %d %d /\n" % ((w, md) + tuple(cc)) for cc in W["conns"][:3]))] * 2
             if W.get("injtype") == "GAS":
                 opts += ["WSOLVENT\n '%s' %s /\n/\n" % (w, draw(st.sampled_from(["0.5", "0", "1"])))]
     return draw(st.sampled_from(opts))
